@@ -123,6 +123,8 @@ def run_cargo_kani(crate_dir, harnesses, extra_flags=(), timeout=3600, jobs=None
                  "covers": None, "unwinding_failure": False, "raw_tail": out[-2500:]}
         if "TIMEOUT after" in out:
             r["status"] = "undecided"; r["raw_tail"] = "timeout " + out[-1500:]
+        if r["status"] == "fail" and not r["failed_checks"]:
+            r["status"] = "undecided"; r["raw_tail"] = "verification did not complete (killed / out of memory?) " + out[-1500:]
         r["wall_s"] = round(time.time() - t1, 1)
         return h, r, out
 
